@@ -241,12 +241,16 @@ class _Run:
                 self.returned.append(out[1])
 
     def note_mismatch(self, name, nd0):
+        """Did a typed receive of this call really meet the connect event or a frame of the other type?"""
+        hit = False
         if name in ("receive_text", "receive_bytes", "iter_text", "iter_bytes"):
             kind = name.split("_")[1]
             for j in self.peer.delivered_idx[nd0:]:
                 m = self.script[j]
                 if m["type"] == T_CONNECT or (m["type"] == T_RECEIVE and frame_of(m)[0] != kind):
                     self.ctx.probe("typed_mismatch")
+                    hit = True
+        return hit
 
     # -- sequential variant: model-checked step ---------------------------------------------
     async def step(self, who, i, op0, dl=0.0):
@@ -274,9 +278,10 @@ class _Run:
         self.sample("after %s" % name)
         self.log_out(who, i, name, out)
         self.collect(name, out)
-        self.note_mismatch(name, pre[2])
+        mismatched = self.note_mismatch(name, pre[2])
         if out[0] == "exc" and out[1] not in STATE_EXC and out[1] != "WebSocketDisconnect":
-            ok = (out[1] == "ClientGone" and peer.send_raised > pre[3]) or (out[1] == "KeyError" and (not self.strict or (sp is not None and sp.unjudged)))
+            # KeyError is what a typed receive gives for a message without the wanted key: not judged (statement silent)
+            ok = (out[1] == "ClientGone" and peer.send_raised > pre[3]) or (out[1] == "KeyError" and mismatched)
             if not ok:
                 self.violate("unexpected-exception", "%s|%s" % (out[1], name), "%s escaped %s: %s (state before: %s, forwarded %r)"
                              % (out[1], name, str(out[2])[:100], model.state(), self.fwd_types()))
